@@ -57,7 +57,20 @@ fn gen(seed: u64, idx: u64, _tier: Tier) -> Plan {
     }
     if scenario == "c20.failing_startup" {
         // configurations that make start-up fail in different ways, with the seed present
-        match rng.below(23) {
+        match rng.below(25) {
+            23 | 24 => {
+                // a file of several YAML documents: an empty or comment-only first one, the
+                // settings in the second; or the settings followed by a second document
+                let body = crate::exec::config_text(&s);
+                let text = match rng.below(4) {
+                    0 => format!("---\n# roughenough\n---\n{}", body),
+                    1 => format!("---\n---\n{}", body),
+                    2 => format!("{}---\nnote: second document\n", body),
+                    _ => format!("# first\n---\n{}...\n---\n{}", body, body),
+                };
+                s.source = ConfigSource::File;
+                s.raw_text = Some(text);
+            }
             19..=22 => {
                 // a hand-written file with a slip of the pen on or next to the seed line that YAML
                 // reports as a syntax error (or reads as something other than a string)
